@@ -13,6 +13,10 @@ fn main() {
         eprintln!("usage: pv <Cnn> [--tier quick|thorough] [--seed N] [--replay FILE] [--sub NAME]");
         std::process::exit(2);
     }
+    if args[1] == "__c18_decode" {
+        install_panic_hook();
+        std::process::exit(pv::props::c18::decode_probe_main(&args[2]));
+    }
     let id = args[1].clone();
     let mut tier = match std::env::var("VERIF_TIER").ok().as_deref() {
         Some("thorough") => Tier::Thorough,
